@@ -176,7 +176,7 @@ Proof.
     destruct (alookup (r_mid r) (smap s)) as [o|] eqn:Es.
     + destruct (HK _ _ (or_intror (alookup_In _ _ _ Es))) as (c & Ec & Em). rewrite Ec.
       destruct (r_kind r) eqn:Ek.
-      5: { apply (exact_ipres (s <| win := w |> <| processed ::= fun l => l ++ [(r, None)] |>)); [|apply ipres_end_driver].
+      5: { apply (exact_ipres (s <| win := w |> <| processed ::= fun l => l ++ [(r, None)] |>)); [|destruct (fix5 (fx s)); [apply ipres_refl|apply ipres_end_driver]].
            apply (exact_resp_same s _ r); [exact E|reflexivity|reflexivity]. }
       all: destruct (o_rx c) eqn:Erx; cbn [negb]; repeat match goal with |- context [if ?b then _ else _] => destruct b end.
       all: first
